@@ -4,7 +4,8 @@ Model: Model/Eval.lean (`denote`: the documented meaning of a predicate on a row
 `sql`: what the code compiles it to, with SQL's truncating remainder in range tests); theorems in Props/C05.lean
 (inRange_correct for every member and stride, compile_correct / selects_exactly for every well-formed
 predicate and row, three-valued operator lemmas; the regression witness of C05-a).
-Tie: C — type-directed random expressions (boolean structure, comparisons in both orientations, + - * % and
+Tie: T — `SqlColumnVisitor.visit_in_range` is translated from the working tree on every run (translate/gen_inrange.py →
+Gen/InRangeSql.lean) and `Translated.translated_inRange_correct` is proved about that translation; C — type-directed random expressions (boolean structure, comparisons in both orientations, + - * % and
 unary minus with negative intermediate values, IN / NOT IN over literals and strided ranges, NULL tests, bind
 values and bind lists) are rendered as strings, run through Butler.query_data_ids / query_dimension_records /
 query_datasets and the legacy Registry.query* on a populated repository with NULL metadata, and the selected
@@ -20,8 +21,35 @@ from vlib import core, repo
 LEVEL = "proof"
 LEAN_TARGETS = ["ButlerModel.Props.C05", "driver"]
 
-STR_COLS = ["detector.purpose", "detector.raft", "detector.full_name", "detector.name_in_raft"]
-STR_VALUES = ["SCIENCE", "GUIDER", "R00", "R01", "d3", "d10", "S0", "", "science", "Z"]
+TARGETS = {
+    "detector": dict(key="detector", int_cols=["detector"], str_cols=["detector.purpose", "detector.raft", "detector.full_name", "detector.name_in_raft"],
+                     bool_cols=[], time_cols=[], str_values=["SCIENCE", "GUIDER", "R00", "R01", "d3", "d10", "S0", "", "science", "Z"]),
+    "exposure": dict(key="exposure", int_cols=["exposure.seq_num"], str_cols=["exposure.observation_type", "exposure.obs_id", "instrument"],
+                     bool_cols=["exposure.can_see_sky", "exposure.has_simulated"], time_cols=["exposure.timespan.begin", "exposure.timespan.end"],
+                     str_values=["science", "dark", "o3", "I", "J", "", "Science"]),
+}
+CUR = dict(TARGETS["detector"])
+T0_NS = 1577836800 * 10**9  # 2020-01-01T00:00:00 TAI as nanoseconds since 1970-01-01 TAI (the unit of the model's time values)
+
+
+class _Pool:
+    """STR_COLS / STR_VALUES follow the current target."""
+
+    def __init__(self, k):
+        self.k = k
+
+    def __iter__(self):
+        return iter(CUR[self.k])
+
+    def __len__(self):
+        return len(CUR[self.k])
+
+    def __getitem__(self, i):
+        return CUR[self.k][i]
+
+
+STR_COLS = _Pool("str_cols")
+STR_VALUES = _Pool("str_values")
 
 
 def run(ctx):
@@ -38,6 +66,16 @@ def run(ctx):
         "time literals / timespan overlap are C11's and C14's subject; POINT/region overlap is sphgeom's and not modelled",
     ]
     with core.Lock():
+        # T-tie: SqlColumnVisitor.visit_in_range is translated from the working tree into Gen/InRangeSql.lean
+        import sys
+
+        sys.path.insert(0, os.path.join(core.VERIF, "translate"))
+        try:
+            import gen_inrange
+
+            gen_inrange.generate(core.GEN_DIR)
+        except Exception as e:  # Untranslatable or anything else: the tie is broken, the search below still runs
+            ctx.broken.append(f"translation: visit_in_range: {type(e).__name__}: {e}")
         built = core.lean_build(ctx, LEAN_TARGETS)
         if built:
             core.lean_audit(ctx, ["ButlerModel.Props.C05"])
@@ -56,7 +94,7 @@ def gen_int(rng, depth):
     if FRIENDLY[0] and 0.35 <= r < 0.45:
         r = 0.9
     if depth <= 0 or r < 0.35:
-        return ("col", "detector") if rng.random() < 0.7 else ("lit", rng.choice([0, 1, 2, 3, 5, 7, 10, -1, -4, 13]))
+        return ("col", rng.choice(CUR["int_cols"])) if rng.random() < 0.7 else ("lit", rng.choice([0, 1, 2, 3, 5, 7, 10, -1, -4, 13]))
     if r < 0.45:
         return ("neg", gen_int(rng, depth - 1))
     if r < 0.5:
@@ -96,7 +134,14 @@ def gen_pred(rng, depth):
             a, b = gen_str(rng), gen_str(rng)
             return ("cmp", rng.choice(["=", "!=", "<", "<=", ">", ">="]), a, b)
         if k < 0.62:
-            return ("isnull", rng.random() < 0.5, ("col", rng.choice(STR_COLS)))
+            if CUR["bool_cols"] and rng.random() < 0.5:
+                return ("flag", rng.choice(CUR["bool_cols"]))
+            if CUR["time_cols"] and rng.random() < 0.5:
+                # times within one second of each other: sub-second resolution matters
+                return ("cmp", rng.choice(["<", "<=", ">", ">=", "=", "!="]), ("col", rng.choice(CUR["time_cols"])),
+                        ("tlit", T0_NS + rng.choice([0, 100, 250, 300, 350, 500, 600, 750, 850, 1000, 1100]) * 10**6))
+            nullable = [c for c in list(STR_COLS) + CUR["int_cols"] if c not in ("detector", "exposure", "instrument")]
+            return ("isnull", rng.random() < 0.5, ("col", rng.choice(nullable)))
         if k < 0.9:
             items = []
             for _ in range(rng.randint(1, 3)):
@@ -131,6 +176,9 @@ class Render:
             return repr(e[1]) if isinstance(e[1], str) else (f"({e[1]})" if e[1] < 0 else str(e[1]))
         if k == "bind":
             return self.b(e[1])
+        if k == "tlit":
+            ns = e[1] - T0_NS
+            return f"T'2020-01-01 00:00:{ns // 10**9:02d}.{ns % 10**9:09d}/tai'"
         if k == "neg":
             return f"-({self.sc(e[1])})"
         op = {"add": "+", "sub": "-", "mul": "*", "mod": "%"}[k]
@@ -142,6 +190,8 @@ class Render:
             return f"{self.sc(e[2])} {e[1]} {self.sc(e[3])}"
         if k == "isnull":
             return f"{self.sc(e[2])} {'!=' if e[1] else '='} NULL"
+        if k == "flag":
+            return e[1]
         if k == "in":
             parts = []
             for kind, v in e[3]:
@@ -167,8 +217,10 @@ def tokens(e):
 
     if k == "col":
         return ["col", e[1]]
-    if k in ("lit", "bind"):
+    if k in ("lit", "bind", "tlit"):
         return ["lit", v(e[1])]
+    if k == "flag":
+        return ["flag", e[1]]
     if k == "neg":
         return ["neg"] + tokens(e[1])
     if k in ("add", "sub", "mul", "mod"):
@@ -201,7 +253,7 @@ def ev_sc(e, row):
     k = e[0]
     if k == "col":
         return row[e[1]]
-    if k in ("lit", "bind"):
+    if k in ("lit", "bind", "tlit"):
         return e[1]
     if k == "neg":
         x = ev_sc(e[1], row)
@@ -239,6 +291,9 @@ def ev_p(e, row):
         if a is None or b is None:
             return None
         return {"=": a == b, "!=": a != b, "<": a < b, "<=": a <= b, ">": a > b, ">=": a >= b}[e[1]]
+    if k == "flag":
+        x = row[e[1]]
+        return None if x is None else bool(x)
     if k == "isnull":
         if LEGACY["null"]:
             return None  # '= NULL' reaches the database as a comparison with NULL
@@ -270,24 +325,72 @@ def has(e, kinds):
 
 
 def expressions(ctx, model_ok, tmp):
-    from lsst.daf.butler import DatasetType
+    import astropy.units as u
+    from astropy.time import Time
+    from lsst.daf.butler import DatasetType, Timespan
 
     rng = ctx.rng
     b = repo.make_butler(os.path.join(tmp, "r"), run="r1")
-    b.registry.insertDimensionData("instrument", {"name": "I"})
-    rows = []
+    for inst in ("I", "J"):
+        b.registry.insertDimensionData("instrument", {"name": inst})
+        b.registry.insertDimensionData("physical_filter", {"instrument": inst, "name": "f", "band": "r"})
+        b.registry.insertDimensionData("day_obs", {"instrument": inst, "id": 20200101})
+        b.registry.insertDimensionData("group", {"instrument": inst, "name": "g"})
+        b.registry.registerRun("c" + inst)
+    # ---- target 1: detectors of instrument I
+    det_rows = []
     for i in range(0, 14):
         rec = {"instrument": "I", "id": i, "full_name": f"d{i}", "purpose": [None, "SCIENCE", "GUIDER"][i % 3],
                "raft": [None, "R00", "R01", "R00"][i % 4], "name_in_raft": None if i % 5 == 0 else f"S{i % 3}"}
         b.registry.insertDimensionData("detector", rec)
-        rows.append({"detector": i, "detector.purpose": rec["purpose"], "detector.raft": rec["raft"], "detector.full_name": rec["full_name"],
-                     "detector.name_in_raft": rec["name_in_raft"]})
+        det_rows.append({"detector": i, "detector.purpose": rec["purpose"], "detector.raft": rec["raft"], "detector.full_name": rec["full_name"],
+                         "detector.name_in_raft": rec["name_in_raft"], "_key": i})
     dt = DatasetType("dt", {"instrument", "detector"}, "StructuredDataDict", universe=b.dimensions)
     b.registry.registerDatasetType(dt)
-    with_ds = set()
+    det_ds = set()
     for i in range(0, 14, 2):
         b.put({"i": i}, dt, instrument="I", detector=i)
-        with_ds.add(i)
+        det_ds.add(i)
+    # ---- target 2: exposures of two instruments, with NULL integers / flags / strings and sub-second timespans
+    t0 = Time("2020-01-01T00:00:00", scale="tai")
+    exp_rows = []
+    dte = DatasetType("dte", {"instrument", "exposure"}, "StructuredDataDict", universe=b.dimensions)
+    b.registry.registerDatasetType(dte)
+    exp_ds = set()
+    for i in range(0, 12):
+        inst = "I" if i % 3 else "J"
+        begin_ms, end_ms = 100 * i, 100 * i + 150
+        rec = {"instrument": inst, "id": i, "obs_id": f"o{i}", "physical_filter": "f", "day_obs": 20200101, "group": "g",
+               "seq_num": None if i % 4 == 2 else 3 * i - 10, "can_see_sky": [True, False, None][i % 3 if i < 9 else (i + 1) % 3],
+               "has_simulated": [None, True, False, True][i % 4], "observation_type": [None, "science", "dark"][(i // 2) % 3],
+               "timespan": Timespan(t0 + begin_ms * 1e-3 * u.s, t0 + end_ms * 1e-3 * u.s)}
+        b.registry.insertDimensionData("exposure", rec)
+        exp_rows.append({"instrument": inst, "exposure": i, "exposure.seq_num": rec["seq_num"], "exposure.obs_id": rec["obs_id"],
+                         "exposure.observation_type": rec["observation_type"],
+                         "exposure.can_see_sky": None if rec["can_see_sky"] is None else int(rec["can_see_sky"]),
+                         "exposure.has_simulated": None if rec["has_simulated"] is None else int(rec["has_simulated"]),
+                         "exposure.timespan.begin": T0_NS + begin_ms * 10**6, "exposure.timespan.end": T0_NS + end_ms * 10**6, "_key": (inst, i)})
+        if i % 2 == 0:
+            b.put({"i": i}, dte, instrument=inst, exposure=i, run="c" + inst)
+            exp_ds.add((inst, i))
+    targets = {
+        "detector": dict(rows=det_rows, with_ds=det_ds, kw={"instrument": "I"},
+                         new={"query_data_ids": lambda w, bd, kw: {d["detector"] for d in b.query_data_ids(["detector"], where=w, bind=bd, explain=False, **kw)},
+                              "query_dimension_records": lambda w, bd, kw: {r_.id for r_ in b.query_dimension_records("detector", where=w, bind=bd, explain=False, **kw)},
+                              "query_datasets": lambda w, bd, kw: {r_.dataId["detector"] for r_ in b.query_datasets(dt, collections="r1", where=w, bind=bd, explain=False, limit=None, **kw)}},
+                         legacy={"queryDataIds": lambda w, bd, kw: {d["detector"] for d in b.registry.queryDataIds(["detector"], where=w, bind=bd, **kw)},
+                                 "queryDimensionRecords": lambda w, bd, kw: {r_.id for r_ in b.registry.queryDimensionRecords("detector", where=w, bind=bd, **kw)},
+                                 "queryDatasets": lambda w, bd, kw: {r_.dataId["detector"] for r_ in b.registry.queryDatasets(dt, collections="r1", where=w, bind=bd, **kw)}}),
+        "exposure": dict(rows=exp_rows, with_ds=exp_ds, kw={},
+                         new={"query_data_ids": lambda w, bd, kw: {(d["instrument"], d["exposure"]) for d in b.query_data_ids(["exposure"], where=w, bind=bd, explain=False)},
+                              "query_dimension_records": lambda w, bd, kw: {(r_.instrument, r_.id) for r_ in b.query_dimension_records("exposure", where=w, bind=bd, explain=False)},
+                              "query_datasets": lambda w, bd, kw: {(r_.dataId["instrument"], r_.dataId["exposure"]) for r_ in
+                                                                   b.query_datasets(dte, collections=["cI", "cJ"], where=w, bind=bd, explain=False, limit=None)}},
+                         legacy={"queryDataIds": lambda w, bd, kw: {(d["instrument"], d["exposure"]) for d in b.registry.queryDataIds(["exposure"], where=w, bind=bd)},
+                                 "queryDimensionRecords": lambda w, bd, kw: {(r_.instrument, r_.id) for r_ in b.registry.queryDimensionRecords("exposure", where=w, bind=bd)},
+                                 "queryDatasets": lambda w, bd, kw: {(r_.dataId["instrument"], r_.dataId["exposure"]) for r_ in
+                                                                     b.registry.queryDatasets(dte, collections=["cI", "cJ"], where=w, bind=bd)}}),
+    }
     req, impl = [], []
 
     def viol(what, key, replay):
@@ -296,20 +399,34 @@ def expressions(ctx, model_ok, tmp):
     def vtok(x):
         return "n" if x is None else (f"s:{x.encode().hex() or '-'}" if isinstance(x, str) else f"i:{x}")
 
-    rows_tok = " ".join(",".join(f"{k}={vtok(v)}" for k, v in r_.items()) for r_ in rows)
-    corpus = [("in", False, ("sub", ("col", "detector"), ("lit", 5)), (("r", (-3, 3, 2)),)),   # C05-a
-              ("isnull", False, ("col", "detector.purpose")),                                   # C05-c (legacy)
-              ("in", False, ("sub", ("col", "detector"), ("lit", 9)), (("r", (-8, 0, 3)),))]
+    rows_tok = {t: " ".join(",".join(f"{k}={vtok(v)}" for k, v in r_.items() if k != "_key") for r_ in spec["rows"]) for t, spec in targets.items()}
+    corpus = [("detector", ("in", False, ("sub", ("col", "detector"), ("lit", 5)), (("r", (-3, 3, 2)),))),   # C05-a
+              ("detector", ("isnull", False, ("col", "detector.purpose"))),                                   # C05-c (legacy)
+              ("detector", ("in", False, ("sub", ("col", "detector"), ("lit", 9)), (("r", (-8, 0, 3)),))),
+              ("exposure", ("not", ("cmp", "=", ("col", "instrument"), ("lit", "I")))),
+              ("exposure", ("not", ("flag", "exposure.can_see_sky"))),
+              ("exposure", ("or", ("cmp", "<", ("col", "exposure.timespan.begin"), ("tlit", T0_NS + 250 * 10**6)),
+                            ("cmp", "<", ("col", "exposure.timespan.begin"), ("tlit", T0_NS + 850 * 10**6))))]
     n_expr = 900 if ctx.quick() else 20000
     constant = 0
     for n in range(n_expr + len(corpus)):
         FRIENDLY[0] = n % 2 == 0
-        e = corpus[n] if n < len(corpus) else gen_pred(rng, rng.choice([1, 2, 2, 3]))
+        tname = corpus[n][0] if n < len(corpus) else ("detector" if n % 5 < 2 else "exposure")
+        CUR.clear()
+        CUR.update(TARGETS[tname])
+        spec = targets[tname]
+        rows = spec["rows"]
+        e = corpus[n][1] if n < len(corpus) else gen_pred(rng, rng.choice([1, 2, 2, 3]))
         # both query systems keep predicates in conjunctive normal form, which is exponential in the number of
         # alternations (C15's subject; SQLite also limits the depth of an expression tree): keep the connectives few
         while Render(False).p(e).count(") AND (") + Render(False).p(e).count(") OR (") > 4:
             e = gen_pred(rng, 2)
-        want = {r_["detector"] for r_ in rows if ev_p(e, r_) is True}
+        if tname == "exposure" and n >= len(corpus) and rng.random() < 0.4:
+            # a governor constraint the legacy interface insists on, in one of its spellings
+            gov = rng.choice([("cmp", "=", ("col", "instrument"), ("lit", "I")), ("not", ("cmp", "=", ("col", "instrument"), ("lit", "J"))),
+                              ("in", False, ("col", "instrument"), (("v", "I"),))])
+            e = ("and", gov, e)
+        want = {r_["_key"] for r_ in rows if ev_p(e, r_) is True}
         if len(want) in (0, len(rows)):
             constant += 1
         else:
@@ -317,64 +434,52 @@ def expressions(ctx, model_ok, tmp):
         rn, rl = Render(False), Render(True)
         s_new, s_leg = rn.p(e), rl.p(e)
         ctx.evaluations += 1
-        ctx.count("predicate:" + e[0])
-        req.append("ev sel 1 " + " ".join(tokens(e)) + " ROWS " + rows_tok)
+        ctx.count(f"{tname}:predicate:" + e[0])
+        req.append("ev sel 1 " + " ".join(tokens(e)) + " ROWS " + rows_tok[tname])
         got_new = {}
-        for api in ("query_data_ids", "query_dimension_records", "query_datasets"):
+        from lsst.daf.butler import InvalidQueryError
+
+        for api, f in spec["new"].items():
             try:
-                if api == "query_data_ids":
-                    got = {d["detector"] for d in b.query_data_ids(["detector"], where=s_new, bind=rn.bind, instrument="I", explain=False)}
-                elif api == "query_dimension_records":
-                    got = {r_.id for r_ in b.query_dimension_records("detector", where=s_new, bind=rn.bind, instrument="I", explain=False)}
-                else:
-                    got = {r_.dataId["detector"] for r_ in b.query_datasets(dt, collections="r1", where=s_new, bind=rn.bind, instrument="I", explain=False, limit=None)}
-                got_new[api] = got
+                got_new[api] = f(s_new, rn.bind, spec["kw"])
+            except InvalidQueryError as ex:
+                got_new[api] = None  # refused as not well-formed for this query (documented refusals: unconstrained governor, types)
+                ctx.count(f"new-refuses:{str(ex)[:40]}")
             except Exception as ex:
                 got_new[api] = f"{type(ex).__name__}: {str(ex)[:100]}"
         g = got_new["query_data_ids"]
-        impl.append("".join(("T" if r_["detector"] in g else "?") for r_ in rows) if isinstance(g, set) else "error")
+        impl.append("".join(("T" if r_["_key"] in g else "?") for r_ in rows) if isinstance(g, set) else "error")
         for api, got in got_new.items():
-            expect = want & with_ds if api == "query_datasets" else want
+            expect = want & spec["with_ds"] if api == "query_datasets" else want
+            if got is None:
+                continue
             if got != expect:
-                neg_mod = has(e, {"in"}) and isinstance(got, set) and got < expect
-                viol(f"Butler.{api}(where={s_new!r}, bind={rn.bind}) selects detectors {sorted(got) if isinstance(got, set) else got}, the documented meaning "
-                     f"selects {sorted(expect)}", "in-range-negative-member" if neg_mod and any(ev_sc(e[2], r_) is not None and ev_sc(e[2], r_) < 0 for r_ in rows if e[0] == 'in') else f"c05:new:{api}:{s_new}",
-                     {"kind": "expression", "where": s_new, "bind": {k: v for k, v in rn.bind.items()}, "api": api})
+                viol(f"Butler.{api}(where={s_new!r}, bind={rn.bind}) selects {tname}s {sorted(got) if isinstance(got, set) else got}, the documented meaning "
+                     f"selects {sorted(expect)}", f"c05:new:{api}:{s_new}",
+                     {"kind": "expression", "where": s_new, "bind": {k: v for k, v in rn.bind.items()}, "api": api, "target": tname})
                 break
-        # legacy: whenever it accepts the expression it must return the same rows.  The legacy path rewrites the
-        # expression to conjunctive normal form, which is exponential in the number of alternations: only expressions
-        # with few boolean connectives are sent to it (observation; not part of the property).
-        n_conn = s_leg.count(") AND (") + s_leg.count(") OR (")
-        for api in ("queryDataIds", "queryDimensionRecords", "queryDatasets") if n_conn <= 5 else ():
+        # legacy: whenever it accepts the expression it must return the same rows.
+        for api, f in spec["legacy"].items():
             try:
-                if api == "queryDataIds":
-                    got = {d["detector"] for d in b.registry.queryDataIds(["detector"], where=s_leg, bind=rl.bind, instrument="I")}
-                elif api == "queryDimensionRecords":
-                    got = {r_.id for r_ in b.registry.queryDimensionRecords("detector", where=s_leg, bind=rl.bind, instrument="I")}
-                else:
-                    got = {r_.dataId["detector"] for r_ in b.registry.queryDatasets(dt, collections="r1", where=s_leg, bind=rl.bind, instrument="I")}
+                got = f(s_leg, rl.bind, spec["kw"])
             except Exception as ex:
                 ctx.count(f"legacy-refuses:{type(ex).__name__}")
                 continue
-            expect = want & with_ds if api == "queryDatasets" else want
+            ctx.count("legacy-accepts")
+            expect = want & spec["with_ds"] if api == "queryDatasets" else want
             if got != expect:
                 key = f"c05:legacy:{api}:{s_leg}"
                 # is it exactly one of the two listed deviations of the legacy path?
-                for dev, name in (("range", "legacy-in-range-negative-member"), ("null", "legacy-null-test-never-true")):
-                    LEGACY[dev] = True
-                    alt = {r_["detector"] for r_ in rows if ev_p(e, r_) is True}
-                    LEGACY[dev] = False
-                    if got == (alt & with_ds if api == "queryDatasets" else alt):
+                for dev, name in (("range", "legacy-in-range-negative-member"), ("null", "legacy-null-test-never-true"), ("both", "legacy-null-test-never-true")):
+                    for d_ in (("range", "null") if dev == "both" else (dev,)):
+                        LEGACY[d_] = True
+                    alt = {r_["_key"] for r_ in rows if ev_p(e, r_) is True}
+                    LEGACY["range"] = LEGACY["null"] = False
+                    if got == (alt & spec["with_ds"] if api == "queryDatasets" else alt):
                         key = name
                         break
-                else:
-                    LEGACY["range"] = LEGACY["null"] = True
-                    alt = {r_["detector"] for r_ in rows if ev_p(e, r_) is True}
-                    LEGACY["range"] = LEGACY["null"] = False
-                    if got == (alt & with_ds if api == "queryDatasets" else alt):
-                        key = "legacy-null-test-never-true"
-                viol(f"Registry.{api}(where={s_leg!r}, bind={rl.bind}) selects detectors {sorted(got)}, the documented meaning (and the new query system) "
-                     f"selects {sorted(expect)}", key, {"kind": "expression", "where": s_leg, "bind": {k: v for k, v in rl.bind.items()}, "api": api})
+                viol(f"Registry.{api}(where={s_leg!r}, bind={rl.bind}) selects {tname}s {sorted(got)}, the documented meaning (and the new query system) "
+                     f"selects {sorted(expect)}", key, {"kind": "expression", "where": s_leg, "bind": {k: v for k, v in rl.bind.items()}, "api": api, "target": tname})
                 break
         ctx.sample({"where": s_new, "selected": len(want)}, cap=8)
     ctx.extra["constant_predicates"] = constant
